@@ -9,6 +9,7 @@ import (
 
 	"github.com/biogo/biogo/alphabet"
 	"github.com/biogo/biogo/seq"
+	"github.com/biogo/biogo/seq/linear"
 	"pgregory.net/rapid"
 
 	sm "verif/internal/seqmodel"
@@ -498,6 +499,10 @@ func verify(c editCase, s *state, ctx string) *vlib.Failure {
 	gap := gapOf(c.Spec.Alpha)
 	quality := c.Spec.Quality()
 	alpha := sm.Alpha(c.Spec.Alpha)
+	var cons *linear.QSeq
+	if cs, ok := al.(interface{ Consensus(bool) *linear.QSeq }); ok && (c.Spec.Kind == "aseq" || c.Spec.Kind == "multi" || c.Spec.Kind == "multiq") {
+		cons = cs.Consensus(false)
+	}
 	for pos := wantStart; pos < wantEnd; pos++ {
 		for _, fill := range []bool{true, false} {
 			var wantL []byte
@@ -557,6 +562,15 @@ func verify(c editCase, s *state, ctx string) *vlib.Failure {
 				got := seq.DefaultConsensus(al, alpha, pos, false)
 				if byte(got.L)|0x20 != first {
 					return vlib.Failf("consensus", "%s: position %d: every row holds %q but the count-based consensus is %q", ctx, pos, first, got.L)
+				}
+				// the container's own Consensus method (built with the count-based function for
+				// the types without qualities) says the same at that position
+				if cons != nil {
+					if i := pos - wantStart; i < 0 || i >= len(cons.Seq) {
+						return vlib.Failf("consensus", "%s: Consensus() has %d letters for a span of %d", ctx, len(cons.Seq), wantEnd-wantStart)
+					} else if byte(cons.Seq[i].L)|0x20 != first {
+						return vlib.Failf("consensus", "%s: position %d: every row holds %q but Consensus() has %q there", ctx, pos, first, cons.Seq[i].L)
+					}
 				}
 			}
 		}
